@@ -97,6 +97,21 @@ Proof.
   apply N.leb_le. now apply H.
 Qed.
 
+Lemma shrink_clauses_mono : forall k E rho cls st cls' st',
+  shrink_clauses (shrink_stmt k E) E (rn_clauses rho cls) st = SOk (cls', st') ->
+  (forall c, In c cls -> ib_stmt m0 (clause_body c) = true) -> (m0 <= s_max st)%N ->
+  (s_max st <= s_max st')%N /\ exists nd, s_lifted st' = nd ++ s_lifted st.
+Proof.
+  intros k E rho cls. induction cls as [|[c1 x1 ctx1 b1] r1 IHr]; intros st1 r' st' E2 Hib' Hm'.
+  - simpl in E2. inv E2. split; [lia | exists []; reflexivity].
+  - cbn [rn_clauses map rn_clause shrink_clauses] in E2. fold (rn_clauses rho r1) in E2.
+    destruct (shrink_stmt k E (rn_stmt rho b1) st1) as [[b1' sta]|] eqn:Ea; [|discriminate]. cbn [sbind] in E2.
+    destruct (shrink_clauses (shrink_stmt k E) E (rn_clauses rho r1) sta) as [[r1' stb]|] eqn:Eb; [|discriminate]. cbn [sbind] in E2.
+    inv E2. destruct (shrink_mono p _ _ _ _ _ _ _ (Hib' _ (or_introl eq_refl)) Hm' Ea) as [Hma (nda & Hla)].
+    destruct (IHr sta r1' st' Eb (fun c Hc => Hib' c (or_intror Hc)) ltac:(lia)) as [Hmb (ndb & Hlb)].
+    split; [lia|]. exists (ndb ++ nda). rewrite Hlb, Hla. now rewrite app_assoc.
+Qed.
+
 (* the clauses produced by shrink_clauses, clause by clause *)
 Lemma shrink_clauses_find : forall k E rho cls st cls' st' K cl,
   e_codata E = codata ->
